@@ -135,10 +135,28 @@ fn main() {
         }
     }
 
-    let Some(run) = props::run(&env) else {
+    let Some(mut run) = props::run(&env) else {
         eprintln!("unknown property {}", prop);
         std::process::exit(2);
     };
+    // thorough tier: coverage-guided stage (libFuzzer through cargo-fuzz), unless a
+    // violation is already known or the stage is switched off
+    let already_failed = run.parts.iter().any(|p| p.failure.is_some());
+    if tier == Tier::Thorough && !already_failed && std::env::var("VERIF_NO_FUZZ").is_err() {
+        if let Err(e) = avt_verif::fuzzstage::build(&env) {
+            eprintln!("FUZZ BUILD PROBLEM (infrastructure, not a violation): {}", e);
+            std::process::exit(2);
+        }
+        for plan in avt_verif::fuzzstage::plans(&prop) {
+            match avt_verif::fuzzstage::run_plan(&env, &plan) {
+                Ok(rep) => run.parts.push(rep),
+                Err(e) => {
+                    eprintln!("FUZZ STAGE PROBLEM (infrastructure, not a violation): {}", e);
+                    std::process::exit(2);
+                }
+            }
+        }
+    }
     if let Some(bug) = harness_bug() {
         eprintln!("HARNESS PROBLEM (not a violation): {}", bug);
         std::process::exit(2);
